@@ -10,7 +10,7 @@ import copy
 
 import gen
 from core import register, Hbytes
-from refmodel import counted_keys, independent_entry_valid, keylist_ok, refcanon, threshold_ok
+from refmodel import counted_keys, independent_entry_valid, keylist_ok, payload_hash, refcanon, threshold_ok
 from seams import exc_site
 from world_envelope import EnvelopeWorld, ATTACKS
 
@@ -34,6 +34,8 @@ class DelegWorld(EnvelopeWorld):
     def __init__(self, run, header):
         super().__init__(run, header)
         self.trusted = []
+        self.md_by_construction = {}     # env index -> payload hash at construction (cleared by any edit: hash differs)
+        self.trusted_by_construction = {}
 
     # ------------------------------------------------------------------ ops
     def _dels(self, spec):
@@ -65,13 +67,37 @@ class DelegWorld(EnvelopeWorld):
                 self.run.fault("trusted_malformed")
         self.trusted.append(T)
 
+    def op_mutate_trusted(self, op):
+        """The client refreshes / edits its trusted document object *in place* (same identity, new content)."""
+        n = op["trusted"]
+        if n >= len(self.trusted):
+            return self.run.ev("noop")
+        T = self.trusted[n]
+        if op.get("replace_with") is not None and op["replace_with"] < len(self.trusted):
+            src = copy.deepcopy(self.trusted[op["replace_with"]])
+            T.clear()
+            T.update(src)
+        elif op.get("path"):
+            if op.get("delete"):
+                gen.del_path(T, op["path"])
+            else:
+                gen.set_path(T, op["path"], op["value"])
+        self.run.fault("trusted_document_changed_in_place")
+
     def op_new_md(self, op):
-        md = {"type": op["type"], "version": op.get("version", 1), "metadata_spec_version": "0.6.0",
-              "timestamp": "2021-01-01T00:00:00Z", "expiration": "2031-01-01T00:00:00Z",
+        md = {"type": op["type"], "version": op.get("version", 1), "metadata_spec_version": op.get("spec", "0.6.0"),
+              "timestamp": op.get("ts", "2021-01-01T00:00:00Z"), "expiration": "2031-01-01T00:00:00Z",
               "delegations": self._dels(op.get("dels", {}))}
-        if "timestamp_only" in op:
+        if op.get("extra"):
+            md["x-" + str(op["extra"])] = op["extra"]
+        if op.get("timestamp_only") and op["type"] != "root":
             del md["version"]
+        n_before = len(self.envs)
         self.op_new_env({"payload": md, "gpg": op.get("gpg", False)})
+        if len(self.envs) > n_before and op["type"] in ("root", "key_mgr"):
+            # well-formed delegating metadata *by construction* (documented schema: supported type, a spec-version
+            # string, well-formed delegations, UTC expiration, version and/or timestamp) - whatever the checker says
+            self.md_by_construction[len(self.envs) - 1] = payload_hash(self.envs[-1]["signed"])
 
     def _wf_signed(self, signed):
         o = self.calls.raw("checkformat_delegating_metadata", {"signatures": {}, "signed": copy.deepcopy(signed)})
@@ -84,9 +110,9 @@ class DelegWorld(EnvelopeWorld):
         E, T = self.envs[e], self.trusted[n]
         role, gpg = op["role"], op["gpg"]
         o = self.calls.call("verify_delegation", role, E, T, gpg=gpg)
-        self._judge_deleg(role, E, T, gpg, o, self.env_faults[e])
+        self._judge_deleg(role, E, T, gpg, o, self.env_faults[e], e=e)
 
-    def _judge_deleg(self, role, E, T, gpg, o, faults=(), strip=True):
+    def _judge_deleg(self, role, E, T, gpg, o, faults=(), strip=True, e=None):
         run, lib = self.run, self.lib
         args_ok = type(role) is str and gpg in (True, False)
         wfT = self.calls.raw("checkformat_delegating_metadata", T).ok
@@ -98,6 +124,9 @@ class DelegWorld(EnvelopeWorld):
         counted = []
         if args_ok and wfT and shape_ok:
             md_wf = isinstance(E["signed"], dict) and self._wf_signed(E["signed"])
+            if not md_wf and e is not None and self.md_by_construction.get(e) == payload_hash(E["signed"]):
+                md_wf = True
+                run.probe("wellformed_by_construction_but_checker_rejects")
             if md_wf and E["signed"]["type"] != role:
                 defects.add("mismatch")
             dels = T["signed"]["delegations"]
@@ -195,6 +224,14 @@ class DelegWorld(EnvelopeWorld):
                 typ = rng.choice(MD_TYPES + roles + roles)
                 op = {"op": "new_md", "type": typ, "dels": self._gen_dels(rng, rng.randint(0, 2)) if rng.random() < 0.7 else {},
                       "version": rng.choice([1, 3]), "gpg": rng.random() < self.h["gpg_bias"]}
+                if rng.random() < 0.35:
+                    op["spec"] = rng.choice(["0.6.0", "0.1.0", "0.0.5", "1.0.0", "2.3.4", "0.6", "v0.6.0", "0.6.0-rc1", "", "é"])
+                if rng.random() < 0.2:
+                    op["ts"] = rng.choice(["2024-02-29T23:59:59Z", "1999-12-31T23:59:59Z"])
+                if rng.random() < 0.15:
+                    op["extra"] = rng.choice(["note", 7])
+                if rng.random() < 0.1:
+                    op["timestamp_only"] = True
                 return op
             return {"op": "new_env", "payload": gen.gen_payload(rng, self.h.get("nonfinite", True)),
                     "gpg": rng.random() < self.h["gpg_bias"]}
@@ -216,6 +253,17 @@ class DelegWorld(EnvelopeWorld):
             if rng.random() < 0.02:
                 gpg = rng.choice([None, 1, 0, "yes"])
             return {"op": "vdel", "role": role, "env": e, "trusted": n, "gpg": gpg}
+        if r < 0.50 and self.trusted:
+            n = rng.randrange(len(self.trusted))
+            T = self.trusted[n]
+            if rng.random() < 0.3 and len(self.trusted) > 1:
+                return {"op": "mutate_trusted", "trusted": n, "replace_with": rng.randrange(len(self.trusted))}
+            ps = [p for p in gen.paths(T) if p]
+            if ps:
+                p = list(rng.choice(ps))
+                if rng.random() < 0.3:
+                    return {"op": "mutate_trusted", "trusted": n, "path": p, "delete": True}
+                return {"op": "mutate_trusted", "trusted": n, "path": p, "value": gen.confuse(rng, gen.get_path(T, p))}
         # signing biased towards the keys some trusted role lists
         if r < 0.62 and self.envs:
             e = rng.randrange(len(self.envs))
@@ -248,6 +296,6 @@ class DelegWorld(EnvelopeWorld):
                 for role in sorted(set(r for r in roles if isinstance(r, str)))[:5]:
                     gpg = self.env_gpg[e]
                     o = self.calls.call("verify_delegation", role, E, T, gpg=gpg)
-                    self._judge_deleg(role, E, T, gpg, o, self.env_faults[e])
+                    self._judge_deleg(role, E, T, gpg, o, self.env_faults[e], e=e)
                     if self.run.stop:
                         return
